@@ -375,9 +375,9 @@ def _http_flight(X, small):
     if present == "absent":
         data = reqline + other + b"\r\n"
         return data, None, {"request-line": len(reqline), "host-line": (0, 0)}, "absent"
-    name = X.choose("name", HTTP_NAMES[:2] if small else HTTP_NAMES)
+    name = X.choose("name", HTTP_NAMES[:2] if small else HTTP_NAMES[:3])
     pre = X.choose("ows_before", HTTP_PRE[:3] if small else HTTP_PRE)
-    post = X.choose("ows_after", HTTP_POST[:2] if small else HTTP_POST)
+    post = X.choose("ows_after", HTTP_POST[:2] if small else [HTTP_POST[0], HTTP_POST[2]])
     hhost = X.choose("hhost", HHOSTS)
     hport = X.choose("hport", [None, 8443])
     value = hhost + (f":{hport}" if hport else "")
@@ -405,17 +405,21 @@ def _region(kind, regions, t):
 SYNTAX_RULES = [([PATTERNS[0]], []), ([], [PATTERNS[0]]), ([PATTERNS[2]], []), ([], [PATTERNS[2]])]
 
 
-def _cut_menu(kind, data, regions):
-    """structurally interesting cut points (config profile, quick tier); 0 = whole flight in one segment"""
+def _cut_menu(kind, data, regions, small):
+    """structurally interesting cut points (config profile; every cut point is enumerated by the syntax profile); 0 = whole flight in one segment"""
     n = len(data)
     if kind == "http":
         rl = regions["request-line"]
         a, b = regions["host-line"]
-        c = [0, 1, 3, 10, rl - 2, rl, n - 1] + ([a + 3, b - 2, b] if b else [])
+        c = [0, 1, 3, rl - 2, rl, n - 1] + ([b - 2] if b else [])
+        if not small:
+            c += [2, 10, rl - 1, n - 2] + ([a + 3, b] if b else [])
     elif kind == "tls":
-        c = [0, 1, 3, 5, 9, n // 2, n - 1]
+        c = [0, 1, 3, 5, n - 1]
+        if not small:
+            c += [2, 4, 9, n // 2, n - 2]
     else:
-        c = [0, 1, 3, n - 1]
+        c = [0, 3, n - 1] + ([] if small else [1, 2])
     return sorted({x for x in c if 0 <= x < n})
 
 
@@ -427,7 +431,7 @@ def h_decision(X, profile, small):
     regions = {}
     if profile == "syntax":
         mode, dest, strategy = "transparent", DESTS[0], "lazy"
-        ignore, allow = X.choose("rules", SYNTAX_RULES)
+        ignore, allow = X.choose("rules", SYNTAX_RULES[:3] if small else SYNTAX_RULES)
         kind = "http"
         data, hdr, regions, variant = _http_flight(X, small)
         cuts = range(len(data))
@@ -453,7 +457,7 @@ def h_decision(X, profile, small):
             data = client_hello(sni)
         else:
             data = RAW_FLIGHT
-        cuts = _cut_menu(kind, data, regions) if small else range(len(data))
+        cuts = _cut_menu(kind, data, regions, small)
     t = X.choose("cut", list(cuts))  # 0 = whole flight in one segment
     b = Bound(mode, dest, _options(ignore, allow, strategy), replace_intercept=True, scheme=scheme)
     try:
@@ -596,13 +600,13 @@ def obligations(tier):
     return [
         Smt("host-header-regex", _build_regex_queries, bounds="all byte strings (unbounded length): z3 regex inclusion over the literals lifted from NextLayer._get_host_header",
             encoded=ENCODED[3:4]),
-        Symx("decision-syntax", lambda X: h_decision(X, "syntax", q), bounds="transparent mode, ignore_hosts / allow_hosts in {example\\.com, secret\\.test:8443$} x HTTP first flight {Host absent / "
-             + ("2 cases x 3 OWS-before x 2 OWS-after" if q else "4 cases x 5 OWS-before x 3 OWS-after") + " x 2 hosts x port present/absent} x Host first/second x every cut point of the flight (two segments)",
+        Symx("decision-syntax", lambda X: h_decision(X, "syntax", q), bounds="transparent mode, " + ("3" if q else "4") + " rule sets (ignore_hosts / allow_hosts in {example\\.com, secret\\.test:8443$}) x HTTP first flight {Host absent / "
+             + ("2 cases x 3 OWS-before x 2 OWS-after" if q else "3 cases x 5 OWS-before x 2 OWS-after") + " x 2 hosts x port present/absent} x Host first/second x every cut point of the flight (two segments)",
              encoded=ENCODED, must_reach=["expect-ignored", "expect-intercept", "deferred", "decided-whole", "decided-after-deferral", "decided-on-prefix"], parallel_depth=4),
         Symx("decision-config", lambda X: h_decision(X, "config", q), bounds=("4 modes (reverse: http/https) x 3 destinations" if q else "4 modes (reverse: http/https/tcp) x 4 destinations")
              + " x lazy/eager x ignore_hosts,allow_hosts in {unset, 3 patterns}^2 x 7 first flights (HTTP without Host / 2 Host values, ClientHello with 2 SNIs / none, raw) x "
-             + ("a menu of structural cut points" if q else "every cut point"), encoded=ENCODED,
+             + ("a menu of <= 7 structural cut points" if q else "a menu of <= 13 structural cut points"), encoded=ENCODED,
              must_reach=["expect-ignored", "expect-intercept", "deferred", "decided-whole", "decided-after-deferral", "decided-on-prefix", "peer-known"], parallel_depth=4),
-        Symx("relay", lambda X: h_relay(X, 3, 2 if q else 4), bounds=f"ignored by ignore_hosts / allow_hosts / tls_clienthello hook x 4 modes x lazy/eager x flight {{http, tls, raw}} x 6 cut points x <= 3 markers "
-             f"({'2 payloads: HTTP-looking, 1040 bytes' if q else '4 payloads: HTTP-looking, 1040 bytes, 1 byte, TLS-looking'}) in either direction", encoded=ENCODED, must_reach=["ignored", "marker-c2s", "marker-s2c"], parallel_depth=4),
+        Symx("relay", lambda X: h_relay(X, 2 if q else 3, 2 if q else 3), bounds=f"ignored by ignore_hosts / allow_hosts / tls_clienthello hook x 4 modes x lazy/eager x flight {{http, tls, raw}} x 6 cut points x <= {2 if q else 3} markers "
+             f"({'2 payloads: HTTP-looking, 1040 bytes' if q else '3 payloads: HTTP-looking, 1040 bytes, 1 byte'}) in either direction", encoded=ENCODED, must_reach=["ignored", "marker-c2s", "marker-s2c"], parallel_depth=4),
     ]
